@@ -1,17 +1,17 @@
-(* C07 oracle and non-triviality on wiring cases. Correspondence: Corr/Wiring.v [wcheck];
+(* C07 oracle and non-triviality on wiring cases. Correspondence: Corr/Wiring.v [wcheck_obs];
    oracles: Corr/WiringOracles.v (static scenario data + the implementation's observation only). *)
 From Coq Require Import List Arith Bool.
 From IocVerif Require Import Model.App Corr.Wiring Corr.WiringOracles.
 Import ListNotations.
 
-Definition check_case : wcase -> bool := wcheck.
+Definition check_case : wcase -> bool := wcheck_obs.
 
 (* named points receive exactly the named component; absent/incompatible: error when required, untouched when optional; never a panic *)
 Definition oracle_case (c : wcase) : bool := oracle_clean_outcome c && oracle_points c && oracle_points_sound c.
 
 Definition nontrivial (c : wcase) : bool := 1 <=? count_points c (fun h kp => match pt_sel (snd kp) with SByName _ => true | _ => false end).
 
-Definition mismatches (cs : list wcase) : list nat := wmismatches cs.
+Definition mismatches (cs : list wcase) : list nat := wmismatches_obs cs.
 Definition violations (cs : list wcase) : list nat :=
   map w_id (filter (fun c => negb (oracle_case c)) cs).
 Definition count_nontrivial (cs : list wcase) : list nat := [length (filter nontrivial cs)].
